@@ -30,7 +30,43 @@ inst!(h_iter_n4 = ob_iter<4>);
 inst!(h_iter_n8 = ob_iter<8>);
 inst!(h_iter_n16 = ob_iter<16>);
 
+
+#[cfg(not(kani))]
+mod native_inst {
+    use super::*;
+    macro_rules! ninst {
+        ($name:ident = $f:ident < $($n:literal),* >) => {
+            pub fn $name<S: Src>(s: &mut S) -> Chk { $f::<S, $($n),*>(s) }
+        };
+    }
+    ninst!(r_map_lookup_n4 = ob_map_lookup<4>);
+    ninst!(r_map_lookup_n8 = ob_map_lookup<8>);
+    ninst!(r_map_lookup_n16 = ob_map_lookup<16>);
+    ninst!(r_map_lookup_n32 = ob_map_lookup<32>);
+    ninst!(r_map_lookup_n64 = ob_map_lookup<64>);
+    ninst!(r_map_update_n4 = ob_map_update<4>);
+    ninst!(r_map_update_n8 = ob_map_update<8>);
+    ninst!(r_map_update_n16 = ob_map_update<16>);
+    ninst!(r_map_update_n32 = ob_map_update<32>);
+    ninst!(r_map_update_n64 = ob_map_update<64>);
+    ninst!(r_map_entry_n4 = ob_map_entry<4>);
+    ninst!(r_map_entry_n8 = ob_map_entry<8>);
+    ninst!(r_map_entry_n16 = ob_map_entry<16>);
+    ninst!(r_map_entry_n32 = ob_map_entry<32>);
+    ninst!(r_map_entry_n64 = ob_map_entry<64>);
+    ninst!(r_map_bulk_n4 = ob_map_bulk<4>);
+    ninst!(r_map_bulk_n8 = ob_map_bulk<8>);
+    ninst!(r_map_bulk_n16 = ob_map_bulk<16>);
+    ninst!(r_map_bulk_n32 = ob_map_bulk<32>);
+    ninst!(r_map_bulk_n64 = ob_map_bulk<64>);
+    ninst!(r_map_construct_n8 = ob_map_construct<8>);
+    ninst!(r_map_construct_n32 = ob_map_construct<32>);
+}
+#[cfg(not(kani))]
+pub use native_inst::*;
+
 harnesses! {
+    kani {
     h_capacity_to_buckets,
     h_bucket_mask_to_capacity,
     h_calculate_layout_for,
@@ -69,4 +105,29 @@ harnesses! {
     #[kani::unwind(6)] h_iter_n4,
     #[kani::unwind(10)] h_iter_n8,
     #[kani::unwind(18)] h_iter_n16,
+    }
+    native {
+        r_map_lookup_n4,
+        r_map_lookup_n8,
+        r_map_lookup_n16,
+        r_map_lookup_n32,
+        r_map_lookup_n64,
+        r_map_update_n4,
+        r_map_update_n8,
+        r_map_update_n16,
+        r_map_update_n32,
+        r_map_update_n64,
+        r_map_entry_n4,
+        r_map_entry_n8,
+        r_map_entry_n16,
+        r_map_entry_n32,
+        r_map_entry_n64,
+        r_map_bulk_n4,
+        r_map_bulk_n8,
+        r_map_bulk_n16,
+        r_map_bulk_n32,
+        r_map_bulk_n64,
+        r_map_construct_n8,
+        r_map_construct_n32,
+    }
 }
